@@ -680,14 +680,15 @@ func padSurround(entry, padWith string, i, ln int) string {
 func padComment(str string, pads ...string) string {
 	// pads specifes padding to indent multi line comments.Defaults to one space
 	pad := " "
-	lines := strings.Split(str, "\n")
+	// gofmt drops the carriage returns of a line comment: they must not hide what follows
+	lines := strings.Split(strings.ReplaceAll(str, "\r", ""), "\n")
 	if len(pads) > 0 {
 		pad = strings.Join(pads, "")
 	}
 	for i, line := range lines {
-		// "// +build …" is a build constraint wherever it stands and however it is indented: gofmt moves
-		// it to the top of the file
-		if text := strings.TrimLeft(line, " \t"); strings.HasPrefix(text, "+build") {
+		// "// +build …" is a build constraint wherever it stands and however it is indented (by any
+		// white space): gofmt moves it to the top of the file
+		if text := strings.TrimLeftFunc(line, unicode.IsSpace); strings.HasPrefix(text, "+build") {
 			lines[i] = line[:len(line)-len(text)] + "[+]" + strings.TrimPrefix(text, "+")
 		}
 	}
